@@ -380,6 +380,10 @@ func c13Actions(emailReq bool, rich bool) func(s *world.Stack, w *world.World) [
 		}
 		a = append(a, flows.A("login(B1,u1,pw:cur,rm)", func(s *world.Stack, _ *world.World) world.Req { return flows.Login(s, "B1", U1, P1, true) }, ""))
 		a = append(a, flows.A("login(B2,u2,pw:cur)", func(s *world.Stack, _ *world.World) world.Req { return flows.Login(s, "B2", U2, P2, false) }, ""))
+		if w.UID("B1") == U1 && w.DB.Users[U1].TOTPSecretKey != "" {
+			// the other account's password typed into a session that is fully (two-factor) logged in as u1
+			a = append(a, flows.A("login(B1,u2,pw:cur)", func(s *world.Stack, _ *world.World) world.Req { return flows.Login(s, "B1", U2, P2, false) }, ""))
+		}
 		a = append(a, flows.Advance(11*time.Second))
 		return a
 	}
@@ -500,6 +504,28 @@ func c13Scenarios(tier string) []engine.Scenario {
 			Model: c13Model, Monitor: c13Monitor, Cover: c13Cover,
 			Actions: c13Actions(false, false),
 			Need:    []string{"attempt:half-authed", "attempt:half-authed+pending"},
+		}
+		out = append(out, engine.Sharded(sc, 8)...)
+	}
+	// two accounts with TOTP; B1 is fully (password + code) logged in as the first and types the second one's password
+	{
+		sc := engine.Scenario{
+			Name: "enrolled,two-totp-accounts", Depth: depth,
+			Cfg: world.Config{Modules: []string{"auth", "remember", "logout", "totp2fa", "sms2fa", "recovery"}},
+			Init: func(s *world.Stack) *world.World {
+				w := world.NewWorld("B1", "B2")
+				flows.SeedAcct(s, w, flows.Acct{PID: U1, Password: P1, TOTPSecret: flows.TOTPSecrets[0], RecoveryCodes: []string{"aaaaa-11111", "bbbbb-22222"}})
+				flows.SeedAcct(s, w, flows.Acct{PID: U2, Password: P2, TOTPSecret: flows.TOTPSecrets[1], RecoveryCodes: []string{"ddddd-44444", "eeeee-55555"}})
+				flows.Exec(s, w, flows.Login(s, "B1", U1, P1, false), "")
+				flows.Exec(s, w, flows.TOTPValidate(s, "B1", flows.TOTPCode(w, flows.TOTPSecrets[0], 0), ""), "")
+				if w.Browsers["B1"].Session["uid"] != U1 || w.Browsers["B1"].Session["twofactor"] != "totp" {
+					panic("c13: two-totp fixture did not produce a two-factor session")
+				}
+				w.Truth.Flags["c13:level:B1"] = "full"
+				return w
+			},
+			Model: c13Model, Monitor: c13Monitor, Cover: c13Cover,
+			Actions: c13Actions(false, false),
 		}
 		out = append(out, engine.Sharded(sc, 8)...)
 	}
